@@ -604,11 +604,13 @@ var mul32 = []*instructionType{
 			r1Abs := exprtools.Abs(r1, width32)
 			mul := expr.NewBinary(expr.Mul, r1Abs, r2, width64)
 			shift := expr.ConstFromUint[uint8](32)
-			shifted := expr.NewBinary(expr.Rsh, mul, shift, width64)
+			// The product of a negative r1 is the negated product of its
+			// absolute value. The whole double-width product has to be
+			// negated, not just its upper half.
 			val := exprtools.BoolCond(
 				exprtools.IntNegative(r1, width32),
-				shifted,
-				exprtools.Negate(shifted, width32),
+				expr.NewBinary(expr.Rsh, exprtools.Negate(mul, width64), shift, width64),
+				expr.NewBinary(expr.Rsh, mul, shift, width64),
 				width32,
 			)
 			return []expr.Effect{regStore(val, i, width32)}
